@@ -3,7 +3,7 @@
    The pinned tree registered the match-everything entry before parsing; see C08_refuted_on_pinned_tree. *)
 From Coq Require Import List NArith ZArith Bool.
 From BE Require Import Model.GoTypes Model.GoVal Model.Parsers Model.Index Proofs.BuilderProof Proofs.NoTrace.
-From BE Require Gen.IdsGen Model.Spec Proofs.IndexCorrect Proofs.SpecBridge Proofs.IndexCorrectPolicy Proofs.HoldersBuildInv Proofs.IndexCorrectHolders Proofs.IndexCorrectHoldersPolicy.
+From BE Require Gen.IdsGen Model.Spec Proofs.IndexCorrect Proofs.SpecBridge Proofs.IndexCorrectPolicy Proofs.HoldersBuildInv Proofs.IndexCorrectHolders Proofs.IndexCorrectHoldersPolicy Proofs.SpecBridgeHolders Proofs.SpecBridgeHoldersPolicy.
 Import ListNotations.
 Local Open Scope Z_scope.
 
@@ -156,6 +156,47 @@ Theorem C08_any_container_every_policy : forall kind pol thr parsers cfgl st0 ds
                       IndexCorrectHolders.conj_sat' parsers (HoldersBuildInv.cfg_of cfgl) q cj = true).
 Proof. exact IndexCorrectHoldersPolicy.index_correct_holders_policy. Qed.
 
+(* THE FULL STATEMENT, any container mix, every policy, every outcome, AGAINST THE SPECIFICATION (see Props/C01.v for the
+   reading of the hypotheses): the built index reports exactly the specification's sat_hits ... *)
+Theorem C08_full_statement : forall kind pol thr parsers cfgl st0 ds st os q,
+  HoldersBuildInv.config_fields (new_builder kind pol thr parsers) cfgl = Some st0 ->
+  add_documents false st0 ds = (st, os) ->
+  NoDup (map d_id ds) ->
+  (forall d cj, In d ds -> In cj (d_conjs d) -> NoDup (map fst cj)) ->
+  (forall d, In d ds -> SpecBridgeHoldersPolicy.doc_ok parsers cfgl d) ->
+  IndexCorrectPolicy.sizes_ok ds ->
+  SpecBridgeHoldersPolicy.skip_ok2 pol (SpecBridgeHolders.cfg_fields parsers cfgl) parsers ds ->
+  ((- GoVal.two64 < thr)%Z \/
+   forall d cj, In d ds -> In cj (d_conjs d) ->
+     Spec.conj_sem (SpecBridgeHolders.cfg_fields parsers cfgl) parsers cj <> None ->
+     HoldersBuildInv.conj_rwf thr (HoldersBuildInv.cfg_of cfgl) cj) ->
+  NoDup (map fst q) ->
+  SpecBridgeHolders.asg_good' parsers cfgl q ->
+  SpecBridgeHoldersPolicy.asg_dom_den parsers cfgl ds q ->
+  (kind = IKGroups -> forall f v, In (f, v) q -> HoldersBuildInv.cfg_of cfgl f = CAc -> IndexCorrectHolders.nil_slice_wf v) ->
+  exists hits spec_hits,
+    retrieve_hits (build_index st) q = ROk hits /\
+    Spec.sat_hits (SpecBridgeHolders.cfg_fields parsers cfgl) parsers pol Spec.pl_docok ds q = Some spec_hits /\
+    Permutation.Permutation (map (fun h : hitrec => SpecBridge.triple (snd h)) hits) spec_hits /\
+    NoDup (map snd hits).
+Proof. exact SpecBridgeHoldersPolicy.index_sat_hits_holders_policy. Qed.
+
+(* ... and AddDocument answers exactly what the specification predicts (no hypothesis on operators or policy):
+   error for no / too many conjunctions, panic for an id out of range, else the verdict of the first conjunction that
+   does not denote under the policy (Skip: continue; Error: error; Panic: panic; an operator the container does not
+   support: panic under every policy), else success *)
+Theorem C08_outcomes_any_container : forall kind pol thr parsers cfgl st0 ds st os,
+  HoldersBuildInv.config_fields (new_builder kind pol thr parsers) cfgl = Some st0 ->
+  add_documents false st0 ds = (st, os) ->
+  (forall d, In d ds -> SpecBridgeHoldersPolicy.doc_ok parsers cfgl d) ->
+  IndexCorrectPolicy.sizes_ok ds ->
+  ((- GoVal.two64 < thr)%Z \/
+   forall d cj, In d ds -> In cj (d_conjs d) ->
+     Spec.conj_sem (SpecBridgeHolders.cfg_fields parsers cfgl) parsers cj <> None ->
+     HoldersBuildInv.conj_rwf thr (HoldersBuildInv.cfg_of cfgl) cj) ->
+  os = map (SpecBridgeHoldersPolicy.spec_out' pol (SpecBridgeHolders.cfg_fields parsers cfgl) parsers) ds.
+Proof. exact SpecBridgeHoldersPolicy.outcomes_holders_policy_exact. Qed.
+
 (* non-vacuity: five documents (an unparseable middle conjunction, an unparseable first conjunction, an id out of
    range, no conjunctions, a clean one) meet every hypothesis, for every index kind and policy *)
 Example C08_nonvacuous : forall kind pol st os,
@@ -179,3 +220,5 @@ Print Assumptions C08_outcomes.
 Print Assumptions C08_skip_as_if_not_supplied.
 Print Assumptions C08_rejected_documents_leave_no_trace.
 Print Assumptions C08_any_container_every_policy.
+Print Assumptions C08_full_statement.
+Print Assumptions C08_outcomes_any_container.
